@@ -27,6 +27,7 @@ def _unhex(s: str) -> bytes:
     return bytes(int(h, 16) for h in re.findall(r"\\x([0-9a-f]{2})", s))
 
 
+EXT = "@ext"      # namespace of files outside the traced root
 _LINE = re.compile(r"^(\d+)\s+(.*)$")
 _CALL = re.compile(r"^(\w+)\((.*)\)\s+=\s+(-?\d+|\?)(.*)$", re.S)
 _STR = re.compile(r'"((?:\\x[0-9a-f]{2})*)"(\.\.\.)?')
@@ -71,6 +72,11 @@ def parse(logfile: Path, root: Path) -> list[dict]:
             return p[len(root) + 1 :]
         return None
 
+    def ext(path: bytes):
+        """Name of a file OUTSIDE the traced root that the workload writes (a temporary file that may be
+        moved into the tree later): kept in the namespace '@ext', which is not part of the tree's snapshot."""
+        return EXT + os.path.normpath(path.decode("utf-8", "surrogateescape"))
+
     for raw in open(logfile, errors="surrogateescape"):
         m = _LINE.match(raw.rstrip("\n"))
         if not m:
@@ -101,10 +107,13 @@ def parse(logfile: Path, root: Path) -> list[dict]:
             allfds[ret] = os.path.normpath(full.decode("utf-8", "surrogateescape"))
             r = rel(full)
             fds.pop(ret, None)
-            if r is None:
-                continue
             flags = args
             wr = "O_WRONLY" in flags or "O_RDWR" in flags or name == "creat"
+            if r is None:
+                sp = os.path.normpath(full.decode("utf-8", "surrogateescape"))
+                if not (wr and ("O_CREAT" in flags or name == "creat") and sp.startswith(("/tmp/", "/var/tmp/", "/dev/shm/"))):
+                    continue
+                r = ext(full)
             if not wr:
                 continue
             nfd += 1
@@ -176,8 +185,12 @@ def parse(logfile: Path, root: Path) -> list[dict]:
                     b = rel(resolve(m2.group(2) + ",", strs[1]))
                 if a is not None and b is not None:
                     ops.append(dict(op="rename", path=a, to=b))
-                elif a is not None or b is not None:
-                    raise TraceError("rename across the traced root")
+                elif b is not None:
+                    # a file written outside the root is moved into the tree (same file system: atomic)
+                    src = strs[0] if name == "rename" else resolve(m2.group(1) + ",", strs[0])
+                    ops.append(dict(op="rename", path=ext(src), to=b))
+                elif a is not None:
+                    raise TraceError("rename out of the traced root")
     return ops
 
 
@@ -261,7 +274,7 @@ class Tree:
             raise TraceError(f"unknown op {k}")
 
     def snapshot(self) -> dict:
-        return {p: ("dir" if e == "dir" else bytes(self.inodes[e])) for p, e in self.entries.items() if p != "."}
+        return {p: ("dir" if e == "dir" else bytes(self.inodes[e])) for p, e in self.entries.items() if p != "." and not p.startswith(EXT)}
 
     def materialise(self, dest: Path) -> None:
         dest = Path(dest)
@@ -271,13 +284,13 @@ class Tree:
             return
         dest.mkdir(parents=True)
         for p in sorted(self.entries):
-            if p == ".":
+            if p == "." or p.startswith(EXT):
                 continue
             e = self.entries[p]
             if e == "dir":
                 (dest / p).mkdir(parents=True, exist_ok=True)
         for p, e in self.entries.items():
-            if e != "dir" and p != ".":
+            if e != "dir" and p != "." and not p.startswith(EXT):
                 (dest / p).parent.mkdir(parents=True, exist_ok=True)
                 (dest / p).write_bytes(bytes(self.inodes[e]))
 
